@@ -115,6 +115,13 @@ Theorem C05_every_crash_point_of_every_history : forall ops s,
   Inv H inflate (fst s) -> pending (snd s) = [] -> pre_hist H inflate s ops ->
   forall n, Inv H inflate (crash (run_events s (firstn n (hist_trace H s ops)))).
 Proof. exact (history_every_crash_point H inflate H_inj). Qed.
+(* ... and, when the history deletes nothing, every object stored at its start is still stored with its bytes at EVERY crash point of
+   the whole history *)
+Theorem C05_no_history_loses_an_object : forall ops s,
+  Inv H inflate (fst s) -> pending (snd s) = [] -> pre_hist H inflate s ops -> forallb (fun o => negb (is_delete o)) ops = true ->
+  forall n k c, stored inflate (fst s) k = Some c ->
+    stored inflate (crash (run_events s (firstn n (hist_trace H s ops)))) k = Some c.
+Proof. exact (history_never_loses H inflate H_inj). Qed.
 End C05.
 Print Assumptions C05_monitor_sound.
 Print Assumptions C05_add_loose_every_crash_point.
@@ -128,3 +135,4 @@ Print Assumptions C05_any_spill.
 Print Assumptions C05_import_every_crash_point.
 Print Assumptions C05_pack_all_loose_over_any_number_of_packs.
 Print Assumptions C05_every_crash_point_of_every_history.
+Print Assumptions C05_no_history_loses_an_object.
